@@ -54,6 +54,15 @@ def run_inproc(model_path, cfg, outdir):
     buf = io.StringIO()
     t = time.time()
     reclimit = sys.getrecursionlimit()
+    # some reports are printed through a file object bound at import time (default argument sys.stdout): capture at descriptor level too
+    os.makedirs(outdir, exist_ok=True)
+    cap_path = os.path.join(outdir, "_stdout_%d.txt" % os.getpid())
+    sys.stdout.flush()
+    sys.stderr.flush()
+    saved1, saved2 = os.dup(1), os.dup(2)
+    cap_fd = os.open(cap_path, os.O_WRONLY | os.O_CREAT | os.O_TRUNC, 0o600)
+    os.dup2(cap_fd, 1)
+    os.dup2(cap_fd, 2)
     try:
         with contextlib.redirect_stdout(buf), contextlib.redirect_stderr(buf):
             res.rc = vela.main(list(res.argv))
@@ -66,8 +75,24 @@ def run_inproc(model_path, cfg, outdir):
         res.rc = -1
     finally:
         sys.setrecursionlimit(reclimit)
+        try:
+            sys.__stdout__.flush()
+            sys.__stderr__.flush()
+        except Exception:
+            pass
+        os.dup2(saved1, 1)
+        os.dup2(saved2, 2)
+        os.close(saved1)
+        os.close(saved2)
+        os.close(cap_fd)
     res.elapsed = time.time() - t
-    res.stdout = buf.getvalue()
+    try:
+        with open(cap_path, errors="replace") as f:
+            low = f.read()
+        os.remove(cap_path)
+    except OSError:
+        low = ""
+    res.stdout = low + buf.getvalue()
     res.out_path, res.csv_path = out, csv
     return res
 
